@@ -1162,10 +1162,11 @@ class ExchangeInstruction(Instruction):
         first, second = self.operands()
         assert isinstance(first, HasWidth), f"Expected HasWidth, got {type(first)}"
         width = first.width()
+        dst_mode, src_mode = self._addressing_modes()
         tmp = TempReg(TempExchange, width=width)
-        tmp.lift_assign(il, first.lift(il))
-        first.lift_assign(il, second.lift(il))
-        second.lift_assign(il, tmp.lift(il))
+        tmp.lift_assign(il, first.lift(il, dst_mode))
+        first.lift_assign(il, second.lift(il, src_mode), dst_mode)
+        second.lift_assign(il, tmp.lift(il), src_mode)
 
     def encode(self, encoder: Encoder, addr: int) -> None:
         op1, op2 = self.operands()
